@@ -71,18 +71,19 @@ pub fn engine_for(property: &str) -> &'static dyn Engine {
 
 use crate::parent::{Plan, Stage};
 
-const REAL: [&str; 12] = [
+const REAL: [&str; 13] = [
     "FeoxStore public API", "scc hash index", "crossbeam skiplist index + epoch reclamation",
     "sharded write buffer", "flush workers + periodic coordinator (real threads, simulated scheduling)",
     "allocation journal", "retirement markers + retirement queue", "recovery scan",
     "free-space manager", "CLOCK cache", "TTL sweeper", "metadata / record serialisation",
+    "DiskIO batch submission/completion code (InFlightBuffers, AlignedBuffer copies, completion validation, indeterminate-write poisoning) in the runs whose device carries the simulated ring",
 ];
 const STUBS: [&str; 8] = [
     "pread/pwrite/fsync -> SimDisk (page cache, durable image, pending/limbo writes, faults, crashes)",
     "wall clock -> virtual clock", "thread::sleep / recv_timeout / lock waits -> virtual-time scheduler",
     "choice of running thread -> seeded scheduler (baton over real OS threads)",
     "ahash seeds -> derived from run seed", "num_cpus -> configuration", "retry jitter -> 0, sweeper sampling rng -> seeded",
-    "io_uring + O_DIRECT paths: NOT exercised",
+    "io_uring kernel side -> simulated ring in 3 of 8 persistent runs of the seq/crash/conc/fault/live engines (hook H12: queued entries are raw pointers the simulated kernel reads at enter time or, for entries orphaned by a failed enter, after the store is gone; completion order shuffled; enter failures, EINTR, full submission queue, short/failed completions; 1 in 8 runs with O_DIRECT alignment rules). The real kernel ring, SQPOLL and a real O_DIRECT file are NOT exercised; reads and single-sector writes take the synchronous simulated path",
 ];
 
 fn stage(engine: &'static str, profile: &str, q: u64, t: u64) -> Stage {
